@@ -96,3 +96,32 @@ Theorem C08_single_value : forall v v' fuel,
   bdecode fuel (bencode v') = Ok v' [].
 Proof. exact single_value. Qed.
 Print Assumptions C08_single_value.
+
+(* ---- end to end (Model/Tracker.v: request line -> parser -> logic with the built-in hooks -> store ->
+   writer), compact form: in EVERY state reached by a history of sane operations, EVERY body the writer can
+   emit for an accepted announce (any dictionary key order) decodes, with the independent decoder of C19, to
+   the counts the logic computed, the configured intervals in whole seconds, and the compact string of
+   exactly the computed peers under the key of the REQUESTER's family; the other key is absent *)
+From Chihaya Require Import Model.Tracker Proofs.TrackerP Proofs.FamilyP.
+Theorem C08_http_announce_end_to_end_compact : forall parse_ip header_get split_host t o ops clock uri remote r q,
+  (forall s ip, parse_ip s = Some ip -> wf_bytes ip = true /\ (length ip = 4 \/ length ip = 16)%nat) ->
+  Forall sop_sane ops -> wf_bytes uri = true ->
+  HttpParse.parse_announce parse_ip header_get split_host o uri remote = HttpParse.Accept (r, q) ->
+  r_compact r = true ->
+  exists c i ps v,
+    http_announce_step spec_if parse_ip header_get split_host t o (run_spec ops) clock uri remote =
+      (swarm_interaction spec_if (ann_of_areq r) clock (run_spec ops), HBody v) /\
+    respond spec_if (ann_of_areq r) (run_spec ops) = Some (c, i, ps) /\
+    forall v' fuel, same_value v v' = true -> (length (bencode v') <= fuel)%nat ->
+      bdecode fuel (bencode v') = Ok v' [] /\
+      get k_complete v' = Some (BInt c) /\
+      get k_incomplete v' = Some (BInt i) /\
+      get k_interval v' = Some (BInt (dur_secs (t_interval t))) /\
+      get k_min_interval v' = Some (BInt (dur_secs (t_min_interval t))) /\
+      if v6_of (r_af r)
+      then get k_peers v' = None /\
+           exists c6, compact_all compact6 ps = Some c6 /\ get k_peers6 v' = opt_str c6
+      else get k_peers6 v' = None /\
+           exists c4, compact_all compact4 ps = Some c4 /\ get k_peers v' = opt_str c4.
+Proof. exact http_announce_end_to_end_compact. Qed.
+Print Assumptions C08_http_announce_end_to_end_compact.
